@@ -305,9 +305,10 @@ func (env *ExecEnv) expandParam(fields []*field, pe *ast.ParamExp, mode ExpMode)
 			switch {
 			case set:
 				var n int
-				if pe.Name.Value == "@" {
+				switch {
+				case pe.Name.Value == "@":
 					n = len(a)
-				} else {
+				case len(a) != 0:
 					n = utf8.RuneCountInString(a[0])
 				}
 				fields[len(fields)-1].join(strconv.Itoa(n), quote)
